@@ -501,10 +501,18 @@ func DrawScenario(t *rapid.T, cfg ProgCfg, p Profile) Scenario {
 		if rapid.Bool().Draw(t, "crossblock.mid") {
 			mid = []m.Block{{Checks: []m.Check{{Queries: []m.Rule{{Head: QueryHead, Body: []m.Pred{m.P("xb_src", m.Var("c"))}}, {Head: QueryHead}}}}}}
 		}
-		if rapid.Bool().Draw(t, "crossblock.order") {
+		switch rapid.IntRange(0, 2).Draw(t, "crossblock.order") {
+		case 0:
 			sc.Token.Blocks = append(append(append(sc.Token.Blocks, ruleBlock), mid...), factBlock)
-		} else {
+		case 1:
 			sc.Token.Blocks = append(append(append(sc.Token.Blocks, factBlock), mid...), ruleBlock)
+		default:
+			// the fact is the authorizer's (visible to every block); a block without facts derives
+			// from it, and a later block without facts checks for the derived fact: what one block
+			// derives stays in that block
+			sc.Authz.Facts = append(sc.Authz.Facts, m.P("xb_src", m.Int(1)))
+			checkBlock := m.Block{Checks: []m.Check{{Queries: []m.Rule{{Head: QueryHead, Body: []m.Pred{m.P("xb_out", m.Int(1))}}}}}}
+			sc.Token.Blocks = append(append(append(sc.Token.Blocks, ruleBlock), mid...), checkBlock)
 		}
 	}
 	return sc
